@@ -39,6 +39,10 @@ CHECKS = {
                 text="State construction of all 7 aliases (incl. HChaCha with the alias's round count) on symbolic key/nonce, the block function at 4/6/10 double rounds through every dispatch arm, and the full try_apply_keystream pipeline of a fresh cipher on symbolic data for a set of request lengths (quick 1,65,321; thorough 10 lengths, both backends): result must be data XOR the specified keystream. Decides the per-block half of the property for all keys/nonces/data; position bookkeeping over arbitrary histories is C02.",
                 note="Trusted: spec/chacha.py, intrinsic models, normalisation laws. Request lengths are a finite set (each covers all keys, nonces and data contents).",
                 technique="value-graph normalisation of MIR vs. reference (translation validation)"),
+    "C20": dict(level="other", design="3/C20",
+                text="The type checker decides each point of each crate's declared feature lattice: cargo check on stable with --no-default-features --features <subset> for all 70 subsets (thorough) or empty/single/full sets (quick, 32 points). 'Features only select implementations' is discharged by reference to C03, C09 and C10, which compare every alternative implementation with one specification.",
+                note="Trusted: rustc/cargo. Known findings (listed by lattice point): groestl-aesni without std, crypto-simd with packed_simd on stable. x86-64 host target only.",
+                technique="type checking of every point of the feature lattice (cargo check), exit status per point"),
 }
 
 REASONS = {}
